@@ -181,8 +181,17 @@ type c20Secret struct {
 	Text  string `json:"text,omitempty"` // for readers only
 }
 
+// one entry of StoreConfig.Structs / one ParseFields call
+type c20StructIn struct {
+	Fields []c20Field `json:"fields"`
+	Prefix string     `json:"prefix"`
+}
+
 type c20Input struct {
-	Kind     string      `json:"kind"`               // run | join | joinrow | domain
+	Kind     string      `json:"kind"`               // run | join | joinrow | domain | multi (several struct values: mode snew | sapply)
+	Structs  []c20StructIn `json:"structs,omitempty"` // multi: the values, in the order they are configured / parsed
+	Order    []int       `json:"order,omitempty"`    // multi, sapply: the order in which the parsed values are applied
+	Fail     []int       `json:"fail,omitempty"`     // multi: the entries whose Apply is scripted to report an error (a bad value under one of THEIR names); for the statistics only
 	N        int         `json:"n,omitempty"`        // joinrow: the other argument runs over all strings over c20Alpha of length <= n
 	Swap     bool        `json:"swap,omitempty"`     // joinrow: A is the name, the prefixes are enumerated
 	Head     string      `json:"head,omitempty"`     // joinrow: fixed head of the enumerated argument (cuts long rows into pieces)
@@ -426,6 +435,314 @@ func c20SafeSecret(st *setec.Store, name string) (s setec.Secret) {
 	return st.Secret(name)
 }
 
+type pokeT struct{ b []byte }
+
+// ---- several struct values in one process: StoreConfig.Structs with two or three entries, or ParseFields on
+// several values followed by the Applies in some order.  Entries with the same shape are values of ONE
+// struct type (reflect.StructOf returns the identical reflect.Type for identical field lists), so anything the
+// code keyed by reflect.Type would be shared between them.
+
+type c20MultiObs struct {
+	ErrClass uint64     `json:"errclass"` // snew: NewStore's outcome (0 nil, 1 rejected before any request, 2 error after requests, 3 a name could not be fetched)
+	NErrs    uint64     `json:"nerrs"`
+	Per      [][2]uint64 `json:"applies,omitempty"` // sapply: (class, joined errors) of every Apply, in the order made
+	Reqs     []string   `json:"requests"`
+	Locs     [][]c20Loc `json:"values"` // the leaf fields of every value
+	Intact   bool       `json:"store_intact_after_overwrite"`
+	SameType bool       `json:"values_share_one_type"`
+	Err      string     `json:"error_text,omitempty"`
+	Panic    string     `json:"panic,omitempty"`
+}
+
+func (o c20MultiObs) coq() string {
+	per := make([]string, len(o.Per))
+	for i, p := range o.Per {
+		per[i] = fmt.Sprintf("(%d, %d)", p[0], p[1])
+	}
+	vals := make([]string, len(o.Locs))
+	for k, ls := range o.Locs {
+		locs := make([]string, len(ls))
+		for i, l := range ls {
+			locs[i] = fmt.Sprintf("OL %d %d %s %d %d %d", l.I, l.J, coqBool(l.Unch), l.Vt, l.Dt, l.V2)
+		}
+		vals[k] = coqList(locs)
+	}
+	return fmt.Sprintf("(MOb %d %d %s %s %s %s)", o.ErrClass, o.NErrs, coqList(per), c20CoqNames(o.Reqs), coqList(vals), coqBool(o.Intact))
+}
+
+type c20MultiFull struct {
+	Obs  c20MultiObs `json:"observed"`
+	Head string      `json:"-"`
+}
+
+func c20ExecMulti(in c20Input) (rec Record) {
+	r := &c20Run{in: in, vtok: map[string]uint64{}, v2tok: map[string]uint64{}, tables: map[int][]reflect.Value{}}
+	for _, s := range in.Svc {
+		if _, ok := r.vtok[string(s.Value)]; !ok {
+			r.vtok[string(s.Value)] = uint64(len(r.vtok) + 1)
+		}
+	}
+	type val struct {
+		typ    reflect.Type
+		ptr    reflect.Value
+		leaves []c20Leaf
+	}
+	vals := make([]val, len(in.Structs))
+	obs := c20MultiObs{Intact: true}
+	types := map[reflect.Type]int{}
+	for k, e := range in.Structs {
+		typ, leaves := c20Build(e.Fields)
+		ptr := reflect.New(typ)
+		for _, l := range leaves {
+			ptr.Elem().FieldByIndex(l.Path).Set(c20Pre(l.F.Tid))
+		}
+		vals[k] = val{typ, ptr, leaves}
+		types[typ]++
+		if types[typ] > 1 {
+			obs.SameType = true
+		}
+	}
+	var jt []string
+	seen := map[int]bool{}
+	for _, v := range vals {
+		for _, l := range v.leaves {
+			if l.F.Tag != nil && strings.Contains(*l.F.Tag, "json") && !seen[l.F.Tid] {
+				seen[l.F.Tid] = true
+				jt = append(jt, r.jsonTable(l.F.Tid)...)
+			}
+		}
+	}
+	cl := &c20Client{vals: map[string]*api.SecretValue{}}
+	for _, s := range in.Svc {
+		cl.vals[s.Name] = &api.SecretValue{Value: append([]byte{}, s.Value...), Version: 1}
+	}
+	logf := func(string, ...any) {}
+	var st *setec.Store
+	var runErr error
+	ctx, cancel := context.WithCancel(context.Background())
+	defer cancel()
+	func() {
+		defer func() {
+			if p := recover(); p != nil {
+				obs.Panic = fmt.Sprint(p)
+			}
+		}()
+		switch in.Mode {
+		case "snew":
+			var structs []setec.Struct
+			for k, e := range in.Structs {
+				structs = append(structs, setec.Struct{Value: vals[k].ptr.Interface(), Prefix: e.Prefix})
+			}
+			cl.onMiss = cancel
+			st, runErr = setec.NewStore(ctx, setec.StoreConfig{Client: cl, Secrets: in.Declared, AllowLookup: in.Allow,
+				Structs: structs, PollInterval: -1, Logf: logf})
+			cl.onMiss = nil
+			switch {
+			case runErr == nil:
+				obs.ErrClass = 0
+			case len(cl.log) == 0:
+				obs.ErrClass = 1
+			case cl.missing:
+				obs.ErrClass = 3
+			default:
+				obs.ErrClass = 2
+				obs.NErrs = c20CountErrs(runErr)
+			}
+			obs.Reqs = append([]string{}, cl.log...)
+			sort.Strings(obs.Reqs)
+		default: // sapply
+			var err error
+			st, err = setec.NewStore(ctx, setec.StoreConfig{Client: cl, Secrets: in.Declared, AllowLookup: in.Allow,
+				PollInterval: -1, Logf: logf})
+			if err != nil {
+				obs.ErrClass = 9
+				runErr = err
+				return
+			}
+			cl.log = nil
+			fs := make([]*setec.Fields, len(in.Structs))
+			for k, e := range in.Structs {
+				f, err := setec.ParseFields(vals[k].ptr.Interface(), e.Prefix)
+				if err != nil {
+					obs.ErrClass = 1
+					runErr = err
+					return
+				}
+				fs[k] = f
+			}
+			for _, k := range in.Order {
+				if k < 0 || k >= len(fs) {
+					continue
+				}
+				p := [2]uint64{0, 0}
+				if err := fs[k].Apply(ctx, st); err != nil {
+					p = [2]uint64{2, c20CountErrs(err)}
+					runErr = err
+				}
+				obs.Per = append(obs.Per, p)
+			}
+			obs.Reqs = append([]string{}, cl.log...)
+		}
+	}()
+	if st != nil {
+		defer st.Close()
+	}
+	if runErr != nil {
+		obs.Err = runErr.Error()
+		if len(obs.Err) > 300 {
+			obs.Err = obs.Err[:300]
+		}
+	}
+	// every leaf of EVERY value
+	var pokes []pokeT
+	handles := make([][]int, len(vals))
+	for k, v := range vals {
+		locs, pk, hs := r.observe(v.ptr, v.leaves, nil)
+		obs.Locs = append(obs.Locs, locs)
+		pokes = append(pokes, pk...)
+		handles[k] = hs
+	}
+	for _, p := range pokes {
+		for i := range p.b {
+			p.b[i] = 0xEE
+		}
+	}
+	if st != nil {
+		for _, s := range in.Svc {
+			if h := c20SafeSecret(st, s.Name); h != nil && !bytes.Equal(h.Get(), s.Value) {
+				obs.Intact = false
+			}
+		}
+	}
+	if st != nil && obs.Panic == "" {
+		cl.mu.Lock()
+		for i, s := range in.Svc {
+			v2 := []byte(fmt.Sprintf("v2#%d#%s", i, s.Name))
+			cl.vals[s.Name] = &api.SecretValue{Value: v2, Version: 3}
+			r.v2tok[string(v2)] = uint64(1000 + i)
+		}
+		cl.mu.Unlock()
+		rerr := st.Refresh(ctx)
+		for k, v := range vals {
+			for _, i := range handles[k] {
+				l := v.leaves[i]
+				s := v.ptr.Elem().FieldByIndex(l.Path).Interface().(setec.Secret)
+				if t, ok := r.v2tok[string(s.Get())]; ok && rerr == nil {
+					obs.Locs[k][i].V2 = t
+				} else {
+					obs.Locs[k][i].V2 = 999994
+				}
+			}
+		}
+	}
+	// ---- the case
+	md := fmt.Sprintf("(MSNew %s %s)", coqBool(in.Allow), c20CoqNames(in.Declared))
+	if in.Mode != "snew" {
+		ord := make([]string, len(in.Order))
+		for i, k := range in.Order {
+			ord[i] = fmt.Sprintf("%d%%nat", k)
+		}
+		md = fmt.Sprintf("(MSApp %s %s %s)", coqBool(in.Allow), c20CoqNames(in.Declared), coqList(ord))
+	}
+	ents := make([]string, len(in.Structs))
+	for k, e := range in.Structs {
+		ents[k] = fmt.Sprintf("(%s, %s)", c20CoqShape(e.Fields), coqBytes([]byte(e.Prefix)))
+	}
+	var svc, unmfail []string
+	failSeen := map[uint64]bool{}
+	for _, s := range in.Svc {
+		t := r.vtok[string(s.Value)]
+		svc = append(svc, fmt.Sprintf("(%s,(1,%d))", coqBytes([]byte(s.Name)), t))
+		if len(s.Value) > 0 && s.Value[0] == '!' && !failSeen[t] {
+			failSeen[t] = true
+			unmfail = append(unmfail, fmt.Sprint(t))
+		}
+	}
+	head := fmt.Sprintf("CMulti %s %s %s %s %s ", md, coqList(ents), coqList(svc), coqList(unmfail), coqList(jt))
+	kb, _ := json.Marshal(in)
+	tags := []string{"multi-" + in.Mode, fmt.Sprintf("multi-values-%d", len(in.Structs))}
+	if obs.SameType {
+		tags = append(tags, "multi-same-type")
+	}
+	if n := len(in.Structs); n >= 2 && len(in.Fail) > 0 {
+		lastFails, earlier := false, false
+		for _, k := range in.Fail {
+			if k == n-1 {
+				lastFails = true
+			} else {
+				earlier = true
+			}
+		}
+		if earlier && !lastFails {
+			tags = append(tags, "multi-"+in.Mode+"-nonlast-fails-last-clean")
+		}
+		if earlier {
+			tags = append(tags, "multi-"+in.Mode+"-nonlast-fails")
+		}
+	}
+	if in.Mode == "snew" {
+		tags = append(tags, fmt.Sprintf("multi-errclass-%d", obs.ErrClass))
+	}
+	rec = Record{Kind: "multi", Input: in, Obs: c20MultiFull{Obs: obs, Head: head}, Key: string(kb),
+		Nontrivial: len(in.Structs) >= 2 && (obs.ErrClass == 0 || obs.ErrClass == 2), Tags: tags,
+		Coq: head + obs.coq()}
+	if obs.Panic != "" {
+		rec.Direct = &DirectVerdict{OK: false, What: "panic inside the struct plumbing on an in-domain input: " + obs.Panic}
+	}
+	return rec
+}
+
+// observe projects every leaf field of one struct value; base = the contents "unchanged" refers to (nil: the
+// sentinels).  Also returns the populated []byte buffers and the indices of the populated handle fields.
+func (r *c20Run) observe(ptr reflect.Value, leaves []c20Leaf, base []reflect.Value) (locs []c20Loc, pokes []pokeT, handles []int) {
+	for k, l := range leaves {
+		post := ptr.Elem().FieldByIndex(l.Path)
+		ref := c20Pre(l.F.Tid)
+		if base != nil {
+			ref = base[k]
+		}
+		ol := c20Loc{I: l.I, J: l.J, Unch: c20Same(l.F.Tid, post, ref)}
+		switch l.F.Tid {
+		case c20TidBytes:
+			ol.Vt = r.tokOf(post.Bytes())
+			if !ol.Unch {
+				pokes = append(pokes, pokeT{post.Bytes()})
+			}
+		case c20TidString:
+			ol.Vt = r.tokOf([]byte(post.String()))
+		case c20TidHandle:
+			if s := post.Interface().(setec.Secret); s != nil {
+				ol.Vt = r.tokOf(s.Get())
+				if !ol.Unch {
+					handles = append(handles, len(locs))
+				}
+			} else {
+				ol.Vt = 999996
+			}
+		case c20TidUnmVal, c20TidUnmNil, c20TidUnmSet:
+			var rc *C20Rec
+			if l.F.Tid == c20TidUnmVal {
+				x := post.Interface().(C20Rec)
+				rc = &x
+			} else {
+				rc = post.Interface().(*C20Rec)
+			}
+			switch {
+			case rc == nil || rc.N == 0:
+				ol.Vt = 0
+			case rc.N == 1:
+				ol.Vt = r.tokOf(rc.Got)
+			default:
+				ol.Vt = 999995
+			}
+		}
+		ol.Dt = r.dtokOf(l.F.Tid, post)
+		ol.Show = c20Show(post)
+		locs = append(locs, ol)
+	}
+	return
+}
+
 func c20Exec(in c20Input) (rec Record) {
 	switch in.Kind {
 	case "join":
@@ -435,6 +752,8 @@ func c20Exec(in c20Input) (rec Record) {
 			Coq: fmt.Sprintf("CJoin %s %s %s", coqBytes([]byte(in.A)), coqBytes([]byte(in.B)), coqBytes([]byte(res)))}
 	case "joinrow":
 		return c20JoinRow(in)
+	case "multi":
+		return c20ExecMulti(in)
 	case "domain":
 		return c20Domain(in)
 	case "run":
@@ -482,58 +801,12 @@ func c20Exec(in c20Input) (rec Record) {
 	defer cancel()
 
 	// the projection of every leaf field; base = the contents "unchanged" refers to (nil: the sentinels)
-	type pokeT struct{ b []byte }
 	var lastPokes []pokeT
 	var lastHandles []int
 	var baseline []reflect.Value
 	observeLeaves := func(base []reflect.Value) []c20Loc {
-		lastPokes, lastHandles = nil, nil
 		var locs []c20Loc
-		for k, l := range leaves {
-			post := ptr.Elem().FieldByIndex(l.Path)
-			ref := c20Pre(l.F.Tid)
-			if base != nil {
-				ref = base[k]
-			}
-			ol := c20Loc{I: l.I, J: l.J, Unch: c20Same(l.F.Tid, post, ref)}
-			switch l.F.Tid {
-			case c20TidBytes:
-				ol.Vt = r.tokOf(post.Bytes())
-				if !ol.Unch {
-					lastPokes = append(lastPokes, pokeT{post.Bytes()})
-				}
-			case c20TidString:
-				ol.Vt = r.tokOf([]byte(post.String()))
-			case c20TidHandle:
-				if s := post.Interface().(setec.Secret); s != nil {
-					ol.Vt = r.tokOf(s.Get())
-					if !ol.Unch {
-						lastHandles = append(lastHandles, len(locs))
-					}
-				} else {
-					ol.Vt = 999996
-				}
-			case c20TidUnmVal, c20TidUnmNil, c20TidUnmSet:
-				var rc *C20Rec
-				if l.F.Tid == c20TidUnmVal {
-					x := post.Interface().(C20Rec)
-					rc = &x
-				} else {
-					rc = post.Interface().(*C20Rec)
-				}
-				switch {
-				case rc == nil || rc.N == 0:
-					ol.Vt = 0
-				case rc.N == 1:
-					ol.Vt = r.tokOf(rc.Got)
-				default:
-					ol.Vt = 999995
-				}
-			}
-			ol.Dt = r.dtokOf(l.F.Tid, post)
-			ol.Show = c20Show(post)
-			locs = append(locs, ol)
-		}
+		locs, lastPokes, lastHandles = r.observe(ptr, leaves, base)
 		return locs
 	}
 	// JSON decode tables for the types that have a field whose tag mentions json
@@ -1334,6 +1607,215 @@ func c20Unsort(r *rand.Rand, fs []c20Field) {
 	}
 }
 
+// ---- several struct values: generation.  The field kinds are chosen so that success and failure of a field
+// are scripted by the secret's value alone: a good value always applies, a bad one never does.
+
+func c20MultiField(r *rand.Rand, i int, names []string) c20Field {
+	f := c20Field{Name: fmt.Sprintf("F%d", i)}
+	nm := fmt.Sprintf("%s_%d", names[r.IntN(len(names))], i) // one secret per field: its value scripts this field alone
+	tag := func(verbs string) *string { t := nm + verbs; return &t }
+	switch r.IntN(11) {
+	case 0:
+		f.Tid = 1 // untagged string
+	case 1, 2:
+		f.Tid, f.Tag = 0, tag("")
+	case 3, 4:
+		f.Tid, f.Tag = 1, tag("")
+	case 5:
+		f.Tid, f.Tag = 2, tag("")
+	case 6:
+		f.Tid, f.Tag = 3, tag("")
+	case 7:
+		f.Tid, f.Tag = 5, tag("")
+	case 8:
+		f.Tid, f.Tag = 6, tag(",json")
+	case 9:
+		f.Tid, f.Tag = 8, tag(",json")
+	default:
+		f.Tid, f.Tag = 9, tag(",opt,json")
+	}
+	return f
+}
+
+func c20MultiValue(r *rand.Rand, f c20Field, good bool) []byte {
+	switch f.Tid {
+	case 6:
+		if good {
+			return []byte(strconv.Itoa(r.IntN(90000)))
+		}
+		return []byte(`{"a":`)
+	case 8:
+		if good {
+			return []byte(fmt.Sprintf(`{"a":%d,"b":"x%d"}`, r.IntN(1000), r.IntN(1000)))
+		}
+		return []byte(`{"a":"bad"}`)
+	case 9:
+		if good {
+			return []byte(fmt.Sprintf(`{"k":%d}`, r.IntN(1000)))
+		}
+		return []byte(`[1]`)
+	case 3, 4, 5:
+		if !good {
+			return []byte("!refuse" + strconv.Itoa(r.IntN(3)))
+		}
+	}
+	return []byte(fmt.Sprintf("val-%d-%d", f.Tid, r.IntN(1000000)))
+}
+
+func c20Failable(f c20Field) bool {
+	return f.Tag != nil && (f.Tid == 3 || f.Tid == 5 || f.Tid >= 6)
+}
+
+func c20GenMulti(r *rand.Rand) c20Input {
+	in := c20Input{Kind: "multi", Mode: "snew", Arg: "ptr", Allow: r.IntN(2) == 0}
+	if r.IntN(2) == 0 {
+		in.Mode = "sapply"
+	}
+	n := 2
+	if r.IntN(20) < 7 {
+		n = 3
+	}
+	names := make([]string, 2+r.IntN(4))
+	for i := range names {
+		names[i] = c20CleanName(r, 2)
+	}
+	shape := func() []c20Field {
+		nf := 2 + r.IntN(5)
+		fs := make([]c20Field, 0, nf+1)
+		for i := 0; i < nf; i++ {
+			fs = append(fs, c20MultiField(r, i, names))
+		}
+		if r.IntN(6) == 0 { // two fields of one type share a secret
+			for i := range fs {
+				for j := i + 1; j < len(fs); j++ {
+					if fs[i].Tag != nil && fs[j].Tag != nil && fs[i].Tid == fs[j].Tid {
+						t := *fs[i].Tag
+						fs[j].Tag = &t
+					}
+				}
+			}
+		}
+		tagged, failable := false, false
+		for _, f := range fs {
+			tagged = tagged || f.Tag != nil
+			failable = failable || c20Failable(f)
+		}
+		if !tagged || (!failable && r.IntN(4) != 0) {
+			t := names[0] + "_n,json"
+			fs = append(fs, c20Field{Name: fmt.Sprintf("F%d", nf), Tid: 6, Tag: &t})
+		}
+		if r.IntN(6) == 0 { // a struct embedded by value
+			t := names[len(names)-1] + "_e"
+			fs = append(fs, c20Field{Name: "E9", Emb: true, Inner: []c20Field{{Name: "G0", Tid: 1, Tag: &t}, {Name: "G1", Tid: 0}}})
+		}
+		return fs
+	}
+	sameType := r.IntN(20) < 13
+	base := shape()
+	pool := []string{"dev", "prod", "stage", "eu/prod", "us/prod", "test", "qa"}
+	r.Shuffle(len(pool), func(i, j int) { pool[i], pool[j] = pool[j], pool[i] })
+	for k := 0; k < n; k++ {
+		e := c20StructIn{Fields: base, Prefix: pool[k]}
+		if !sameType && k > 0 && (k == 1 || r.IntN(2) == 0) {
+			e.Fields = shape()
+		}
+		if k > 0 && r.IntN(12) == 0 {
+			e.Prefix = in.Structs[0].Prefix // two entries, one prefix: they share their secrets
+		} else if r.IntN(12) == 0 {
+			e.Prefix = c20DirtyPath(r)
+		}
+		in.Structs = append(in.Structs, e)
+	}
+	// who is scripted to fail
+	want := make([]bool, n)
+	switch x := r.IntN(20); {
+	case x < 5: // an earlier struct fails, the last one is clean
+		want[r.IntN(n-1)] = true
+	case x < 8: // only the last one fails
+		want[n-1] = true
+	case x < 11:
+		for k := range want {
+			want[k] = r.IntN(2) == 0
+		}
+	}
+	values := map[string][]byte{}
+	var order []string
+	bad := map[string]bool{}
+	for k, e := range in.Structs {
+		var leaves []c20Field
+		for _, f := range e.Fields {
+			if f.Emb {
+				leaves = append(leaves, f.Inner...)
+			} else {
+				leaves = append(leaves, f)
+			}
+		}
+		var cand []int
+		for i, f := range leaves {
+			if c20Failable(f) {
+				cand = append(cand, i)
+			}
+		}
+		failAt := -1
+		if want[k] && len(cand) > 0 {
+			failAt = cand[r.IntN(len(cand))]
+		}
+		for i, f := range leaves {
+			if f.Tag == nil {
+				continue
+			}
+			full := path.Join(e.Prefix, c20TagName(*f.Tag))
+			if _, ok := values[full]; !ok {
+				values[full] = c20MultiValue(r, f, true)
+				order = append(order, full)
+			}
+			if i == failAt {
+				values[full] = c20MultiValue(r, f, false)
+				bad[full] = true
+			}
+		}
+	}
+	for _, full := range order {
+		v := values[full]
+		in.Svc = append(in.Svc, c20Secret{Name: full, Value: v, Text: fmt.Sprintf("%q", v)})
+		if in.Mode == "sapply" && (r.IntN(10) < 6 || (!in.Allow && r.IntN(10) < 8)) {
+			in.Declared = append(in.Declared, full)
+		}
+	}
+	// the entries that really have a bad value under one of their names (shared prefixes spread it)
+	for k, e := range in.Structs {
+		fails := false
+		var walk func(fs []c20Field)
+		walk = func(fs []c20Field) {
+			for _, f := range fs {
+				if f.Emb {
+					walk(f.Inner)
+				} else if f.Tag != nil && bad[path.Join(e.Prefix, c20TagName(*f.Tag))] {
+					fails = true
+				}
+			}
+		}
+		walk(e.Fields)
+		if fails {
+			in.Fail = append(in.Fail, k)
+		}
+	}
+	if in.Mode == "snew" && r.IntN(4) == 0 {
+		v := []byte("extra")
+		in.Svc = append(in.Svc, c20Secret{Name: "zz/extra", Value: v, Text: `"extra"`})
+		in.Declared = append(in.Declared, "zz/extra")
+	}
+	if in.Mode == "sapply" {
+		if len(in.Declared) == 0 && !in.Allow {
+			v := []byte("dummy")
+			in.Svc = append(in.Svc, c20Secret{Name: "zz/declared", Value: v, Text: `"dummy"`})
+			in.Declared = append(in.Declared, "zz/declared")
+		}
+		in.Order = r.Perm(n)
+	}
+	return in
+}
+
 func c20Generate(r *rand.Rand) c20Input {
 	in := c20Input{Kind: "run", Arg: "ptr", Mode: "apply", Allow: r.IntN(2) == 0}
 	switch x := r.IntN(20); {
@@ -1654,6 +2136,45 @@ func c20Main(o Opts) {
 				selfSrc = append(selfSrc, rec)
 				ndecl++
 			}
+		}
+	}
+	// several struct values in one process (same type / different types; NewStore{Structs} and ParseFields+Apply)
+	nmulti := 400
+	if o.Tier == "thorough" {
+		nmulti = 4000
+	}
+	if o.N > 0 {
+		nmulti = o.N / 4
+	}
+	rm := NewRand(o.Seed, 22)
+	nms := 0
+	for i := 0; i < nmulti; i++ {
+		rec := c20Exec(c20GenMulti(rm))
+		rec.ID = out.n
+		out.Emit(rec)
+		if full, ok := rec.Obs.(c20MultiFull); ok && nms < 4 && i%23 == 7 && rec.Direct == nil && len(full.Obs.Locs) >= 2 {
+			// self-tests: the values swapped (what a per-type cache makes of two values), and an error swallowed
+			o2 := full.Obs
+			o2.Locs = append([][]c20Loc{}, full.Obs.Locs...)
+			o2.Locs[0], o2.Locs[len(o2.Locs)-1] = o2.Locs[len(o2.Locs)-1], o2.Locs[0]
+			alt := full.Head + o2.coq()
+			if nms%2 == 1 || alt == rec.Coq {
+				o2 = full.Obs
+				if o2.ErrClass == 0 {
+					o2.ErrClass, o2.NErrs = 2, 1
+				} else {
+					o2.ErrClass, o2.NErrs = 0, 0
+				}
+				o2.Per = append([][2]uint64{}, full.Obs.Per...)
+				for j := range o2.Per {
+					o2.Per[j] = [2]uint64{2 - o2.Per[j][0], 1 - min(o2.Per[j][1], 1)}
+				}
+				alt = full.Head + o2.coq()
+			}
+			st := rec
+			st.Coq, st.SelfTest, st.SelfOf, st.Direct = alt, true, rec.ID, nil
+			out.Emit(st)
+			nms++
 		}
 	}
 	rj := NewRand(o.Seed, 21)
